@@ -311,12 +311,18 @@ def path_spec(path):
     return ["#%d" % p if isinstance(p, int) else p for p in path]
 
 
-def rename_variables(nodes):
+def rename_variables(nodes, shared=False):
     """The same document with its variables renamed q1, q2, ... in order of first appearance (names carry no
-    meaning; different documents then reuse the same names with different types).  -> (nodes, mapping)"""
+    meaning; different documents then reuse the same names with different types).  -> (nodes, mapping)
+    shared=True: when every operation declares at most one variable, ALL variables get the same name (variables are
+    scoped per operation: two operations may use one name for variables of different types)."""
     mapping = {}
+    one_name = shared and all(len(n.get("vdefs") or []) <= 1 for n in nodes if n["k"] == "OP")
 
     def name(v):
+        if one_name:
+            mapping[v] = "q1"
+            return "q1"
         if v not in mapping:
             mapping[v] = "q%d" % (len(mapping) + 1)
         return mapping[v]
